@@ -1,20 +1,20 @@
-\* vacuity witness: close() that does not wait for the cancelled pump must violate NothingLeftRunning
+\* vacuity witness: ... and AcceptedHasPump (the connection is still accepted, its pump is gone)
 INIT XInit
 NEXT XNext
 CONSTANTS
   MaxQs = {1}
-  NMsg = 1
+  NMsg = 0
   DiscChoices = {FALSE}
   GeCmp = TRUE
-  AwaitStop = FALSE
+  AwaitStop = TRUE
   NotifyPop = TRUE
   ReleaseOnEnd = TRUE
-  Faults = TRUE
-  StopAfterSend = TRUE
+  Faults = FALSE
+  StopAfterSend = FALSE
   CleanupOnDisc = TRUE
   MaxSendFail = 1
   Family = "none"
   MaxOps = 2
   MaxCancel = 0
   Depth = 0
-INVARIANT NothingLeftRunning
+INVARIANT AcceptedHasPump
